@@ -3,8 +3,9 @@
 From Coq Require Import List ZArith QArith Bool.
 From PV Require Import lib.Sx lib.Str lib.Result model.GenSccw model.SccWrap model.SccWrite spec.SpecSccw.
 From PV Require Import proofs.SccWriteFacts proofs.SccWrapFacts proofs.SccWordsFacts proofs.SccDecodeFacts
-     proofs.SccLayoutFacts proofs.SccTimingFacts.
+     proofs.SccLayoutFacts proofs.SccTimingFacts model.SccRoundTrip model.SccDecoder proofs.SccDocFacts proofs.SccRoundTripFacts.
 Import ListNotations.
+Open Scope Q_scope.
 
 (* ---- tables of the working tree (complete, re-proved on every run) ------------------------------- *)
 (* every basic code, every special/extended code, the substitute for unknown characters, the filler, the
@@ -106,6 +107,42 @@ Theorem C17_decode_rows : forall text, basic_text text = true -> (length (layout
   exists ws, text_to_words text = Ok ws /\ decode_body ws None [] = Some (layout_rows text).
 Proof. exact decode_rows_basic. Qed.
 Print Assumptions C17_decode_rows.
+
+(* ---- wave 2: the writer model composed, through the document, with the full SCC reader model (builder sccr's
+        model.SccDecoder.read). roundtrip_ok caps = the reader model returns one caption per cue, with the same words
+        (over-long words in pieces) and a start within 3 frames. Complete-table statements over the working tree's basic
+        character table, decided through BOTH models; arbitrary texts are checked by the extracted composition on every
+        generated case. ------------------------------------------------------------------------------------------ *)
+(* the document itself: for cues with non-negative times on <= 15 rows the text the writer model produces is a
+   Scenarist document that the specification's parser splits into lines whose frame numbers are those of the times
+   written (load line and optional clear line per caption) and whose every byte has odd parity *)
+Theorem C17_document_parses : forall caps doc, write caps = Ok doc ->
+  (forall c, In c caps -> 0 <= w_start c /\ 0 <= w_end c /\ (length (layout_rows (w_text c)) <= 15)%nat) ->
+  exists codes lines,
+    res_map (fun c => do code <- text_to_code (w_text c); Ok (code, w_start c, w_end c)) caps = Ok codes /\
+    parse_document doc = Some lines /\
+    map fst lines = map tc_frames (emitted (pass2 [] codes)) /\
+    forallb (fun l => forallb word_odd (snd l)) lines = true.
+Proof. exact document_parses. Qed.
+Print Assumptions C17_document_parses.
+(* hence the composition with the reader model always reaches the reader model *)
+Theorem C17_reread_reaches_reader : forall caps,
+  (forall c, In c caps -> 0 <= w_start c /\ 0 <= w_end c /\ (length (layout_rows (w_text c)) <= 15)%nat) ->
+  exists lines, reread caps = RRRead (read 0 (map to_sline lines))
+                /\ forallb (fun l => forallb word_odd (snd l)) lines = true.
+Proof. exact reread_reaches_reader. Qed.
+Print Assumptions C17_reread_reaches_reader.
+
+Theorem C17_roundtrip_every_basic_char :
+  forallb (fun c => roundtrip_ok (one_cap (lit "a" ++ [c] ++ lit "b")) && roundtrip_ok (one_cap ([c] ++ lit "ab c")))
+          (filter (fun c => negb (c =? 32)%Z) basic_cps) = true.
+Proof. exact roundtrip_every_basic_char. Qed.
+Print Assumptions C17_roundtrip_every_basic_char.
+Theorem C17_roundtrip_basic_pairs :
+  forallb (fun c1 => forallb (fun c2 => roundtrip_ok (one_cap ([c1; c2]))) neighbours)
+          (filter (fun c => negb (c =? 32)%Z) basic_cps) = true.
+Proof. exact roundtrip_basic_pairs. Qed.
+Print Assumptions C17_roundtrip_basic_pairs.
 
 (* ---- timing ------------------------------------------------------------------------------------------ *)
 (* PASS 2 is a one-caption look-ahead *)
